@@ -287,20 +287,22 @@ def run(pid, tier="quick", jobs=None, keep=False, only=None):
     if p.returncode != 0:
         problems.append("harness import failed: " + (p.stderr or p.stdout)[-1500:])
 
-    # 1. native pre-checks (model / translator validation against the real code)
-    for name, fn in spec.native:
+    # 1. native checks (z3 kernels, model / translator validation): started now, joined after the CrossHair conditions
+    def _run_native(name, fn):
         t0 = time.time()
         try:
             res = fn()
         except HarnessError as e:
-            problems.append(f"native {name}: {e}")
             res = {"error": str(e)}
         except Exception as e:  # noqa: BLE001  a crash of the native part is a harness error, never a pass
             import traceback
 
             res = {"error": f"crashed: {type(e).__name__}: {e}"}
             traceback.print_exc()
-        native_results.append({"name": name, "seconds": round(time.time() - t0, 2), "result": res})
+        return {"name": name, "seconds": round(time.time() - t0, 2), "result": res}
+
+    native_pool = cf.ThreadPoolExecutor(max_workers=max(1, len(spec.native)))
+    native_futs = [native_pool.submit(_run_native, name, fn) for name, fn in spec.native] if not problems else []
 
     conds = [c for c in spec.conds if only is None or c.fn in only]
     results = {}
@@ -319,6 +321,8 @@ def run(pid, tier="quick", jobs=None, keep=False, only=None):
             for fut in cf.as_completed(futs):
                 c = futs[fut]
                 results[c.fn] = fut.result()
+    native_results = [f.result() for f in native_futs]
+    native_pool.shutdown()
 
     cond_reports = []
     evaluations, sigs, samples = 0, set(), []
